@@ -36,7 +36,7 @@ fn gen(ctx: &GenCtx, i: u64) -> Option<Run> {
     let now = gen_now(&mut r);
     let key = rb.key(key_for(proto, &mut r));
     let b = rb.builder_id();
-    rb.push(Op::NewBuilder { b, proto, layer: Layer::Generic, now_ns: Ns(now) });
+    rb.push(Op::NewBuilder { b, proto, layer: Layer::Generic, now_ns: Ns(now), hash_seed: r.next() });
     let maxlen = if ctx.tier == Tier::Quick { 12 } else { 40 };
     let n = r.usize(maxlen + 1);
     // small key pool to force overwrite / remove of live keys
